@@ -37,7 +37,7 @@ CLAMP_EXCL = 1e-3
 
 # Candidate finding F10: with cone=elliptic every gradient of forward/step is NaN as soon as the model has a contact slot, even
 # when the contact is far from active (and elliptic without frictional contact slots hits the TypeError of finding F2), so
-# the elliptic cone is excluded from the default domain; C45_FINDINGS=1 re-enables it.
+# the elliptic cone is excluded from the generated domain; F10 is probed on every run (vf/mjx_findings.py, KNOWN-FINDING).
 FINDINGS = bool(os.environ.get('C45_FINDINGS'))
 
 PARAMS = ('body_mass', 'body_inertia', 'dof_damping', 'dof_armature', 'jnt_stiffness', 'actuator_gainprm0',
@@ -283,12 +283,21 @@ ASSUMPTIONS = ['finite differences are taken on the same jitted function as AD (
                'reverse mode through the constraint solver is only defined for opt.iterations=1 (while_loop otherwise): '
                'family K uses iterations=1, family S has no constraint rows',
                'model parameters are perturbed in mjx.Model only (derived compile-time quantities such as invweight0 are inputs, not recomputed)',
-               'elliptic cone excluded: candidate finding F10 (all gradients NaN with any contact slot) / F2 (TypeError without); C45_FINDINGS=1 re-enables']
+               'elliptic cone excluded from the generators: F10 (all gradients NaN with any contact slot; probed on every run by vf/mjx_findings.py and '
+               'reported as KNOWN-FINDING) / F2 (TypeError without contact slot, reported by C43)',
+               'frictionloss rows excluded from family K: F24 (AD through the bracketing line search deviates up to 1.7e-2 from mutually consistent '
+               'finite differences; no standalone reproducer, recorded inputs need the 3-jit GradCase machinery)']
 
 
 def shard_main(ck, shard, nshards, only_case=None):
   mujoco, mjx, jax, jp = mjxload.load()
   lib = ck.lib('rel')
+  if only_case is None:
+    nshards -= 1                     # the last worker runs the known-finding probes (vf/mjx_findings.py)
+    if shard == nshards:
+      from vf import mjx_findings
+      mjx_findings.run_probes(ck, mjx_findings.BY_PROPERTY['C45'])
+      return
   worst = collections.defaultdict(float)
   npoints = 2 if ck.quick else 6
   quota = 1
@@ -444,7 +453,7 @@ def main(ck):
   ck.rule = RULE
   ck.assumptions = ASSUMPTIONS
   nshards = int(os.environ.get('C45_SHARDS', 3 if ck.quick else 6))
-  extra = mjxshard.run(ck, 'c45', nshards, timeout=(1800 if ck.quick else 5400))
+  extra = mjxshard.run(ck, 'c45', nshards + 1, timeout=(1800 if ck.quick else 5400))   # + 1 probe worker
   worst = mjxshard.merge_max(extra.get('worst', []))
   counts = mjxshard.merge_sum([{k: v for k, v in d.items() if k.startswith('fd-entries')} for d in extra.get('worst', [])])
   ck.extra['worst_row_scaled_err'] = {k: float('%.3g' % v) for k, v in worst.items() if not k.startswith('fd-entries')}
@@ -460,7 +469,7 @@ contacts and one solver iteration); the full Jacobian of (qacc, next qvel, next 
 position, velocity, control, activation and real-valued model parameters is computed by jax.jacfwd and jax.jacrev and compared with
 central finite differences of the same function; all entries must be finite.'''
 LEVEL_NOTE = '''Gradients through active contacts and reverse mode through a multi-iteration solver (while_loop) are outside the
-domain. Excluded because of reported candidate findings (C45_FINDINGS=1 re-enables): the elliptic cone (all gradients NaN with any
+domain. Excluded by construction: the elliptic cone (F10, probed on every run and reported as KNOWN-FINDING: all gradients NaN with any
 contact slot, TypeError without), frictionloss rows in family K (AD through the bracketing line search deviates up to 1.7e-2 from
 mutually consistent finite differences). Points near clamps / limit boundaries and with cond(M)>1e8 are excluded using the tree C
 engine; Jacobian entries whose three finite-difference estimates disagree are skipped and counted. Gradients w.r.t. geom sizes
